@@ -26,16 +26,30 @@ def parseCase (line : String) : Option (Table × List Char) :=
     pure (es, cs)
   | _ => none
 
-def observe (toks : Toks) (text : List Char) : String :=
-  if !validToks toks then "syntax-error" else s!"ok {encChars text}"
+def insertSorted (a : Alias) : List Alias → List Alias
+  | [] => [a]
+  | b :: t => if a.name < b.name then a :: b :: t else b :: insertSorted a t
+
+def showTable (T : Table) : String :=
+  let seen := T.foldl (fun (acc : List Alias) a => if acc.any (·.name == a.name) then acc else acc ++ [a]) []
+  let sorted := seen.foldr insertSorted []
+  if sorted.isEmpty then "-" else
+  ",".intercalate (sorted.map fun a => s!"{encStr a.name}:{if a.global then "g" else "n"}:{encChars a.value}")
+
+def observe (toks : Toks) (text : List Char) (T : Table) : String :=
+  if !validToks toks then "syntax-error" else s!"ok {encChars text} T={showTable T}"
+
+/-- step budget of the line machine (the table may change, so `fuelFor` of the initial table is no bound) -/
+def lineFuel (T : Table) (cs : List Char) : Nat := fuelFor T cs + 20000
 
 def runLine (line : String) : String :=
   match parseCase line with
   | none => "bad-case\t-"
   | some (T, cs) =>
-    let (s, done) := run T (fuelFor T cs) (init cs)
+    let (l, done) := lrun (lineFuel T cs) { T := T, m := init cs }
     if !done then "FUEL\t-" else
-    let h := substHand T cs
-    observe s.toks.reverse s.text ++ "\t=" ++ observe h.toks.reverse (substLine T cs)
+    let hl := hlrun (lineFuel T cs) { T := T, h := { rest := cs } }
+    observe l.m.toks.reverse l.m.text l.finalTable ++ "\t=" ++
+      observe hl.h.toks.reverse (hl.h.out.reverse ++ hl.h.rest) hl.finalTable
 
 def main : IO Unit := YashModel.Proto.mainLoop runLine
